@@ -78,7 +78,10 @@ Record opts := { o_query : string; o_name : string; o_vars : obj; o_type : optyp
 
 (* what the client body is, as classified by an independent decoding (encoding/json with
    UseNumber): an object, the literal null, another JSON value, or not a JSON text at all
-   (empty, blank, truncated, trailing data) *)
+   (empty, blank, truncated, trailing data - and a body STREAM that fails with a read error,
+   whatever prefix it delivered before: what arrived is not the client's body; also for the
+   copies proxy.CloneRequest hands to the attempts of concurrent_calls > 1, see
+   fixes/C07-clone-body-read-error.diff) *)
 Inductive cbody := BObject (o : obj) | BNull | BOtherValue | BInvalid.
 
 (* fromBody: the body's members, then the configured defaults for the keys it lacks *)
@@ -197,6 +200,10 @@ Definition stage_fn (be : backend) (ps : params) (cb : cbody) (len : Z) (s : sta
                       p_body := PGql g |}
           end
       end
+  (* url.Parse(host + path), then the encoded query appended to URL.RawQuery: a '#' of the
+     generated path (a parameter value embedded by url_pattern) opens the fragment in the path
+     part and does not swallow the query; a '?' of the path and paths that do not parse are
+     C10's subject and are not generated here *)
   | SBalancer => Some {| p_method := p_method p; p_query := p_query p; p_urlq := p_query p;
                          p_hdrs := p_hdrs p; p_body := p_body p |}
   | SConcurrent | SPlugin | SBackend => Some p
